@@ -1,5 +1,129 @@
 import GT.Base.JsonQ
-open Lean GT.J
+import GT.Base.QSqrt
+import GT.Model.CP1
+open Lean GT.J GT GT.CP1
 namespace GT.Driver.C20
-def ops : List (String × Handler) := []
+
+abbrev QI := Cx ℚ
+
+instance : Inhabited QI := ⟨⟨0, 0⟩⟩
+
+/-- complex numbers travel as `[re, im]` -/
+def cxOf (j : Json) : R QI := do
+  let a ← qArr j
+  if a.size ≠ 2 then throw "expected [re, im]"
+  return ⟨a[0]!, a[1]!⟩
+
+def ofCx (z : QI) : Json := .arr #[ofQ z.re, ofQ z.im]
+
+def ptOf (j : Json) : R (QI × QI) := do
+  let a ← arr j
+  if a.size ≠ 2 then throw "expected homogeneous pair"
+  return (← cxOf a[0]!, ← cxOf a[1]!)
+
+def ofPt (p : QI × QI) : Json := .arr #[ofCx p.1, ofCx p.2]
+
+def r2Of (j : Json) : R (ℚ × ℚ) := do
+  let a ← qArr j
+  if a.size ≠ 2 then throw "expected [x, y]"
+  return (a[0]!, a[1]!)
+
+def ofR2 (p : ℚ × ℚ) : Json := .arr #[ofQ p.1, ofQ p.2]
+
+def p2sOp (j : Json) : R Json := do
+  let z0 ← cxOf (← field j "z0")
+  let z1 ← cxOf (← field j "z1")
+  if z0 == 0 && z1 == 0 then throw "DivZero"
+  let s := p2s z0 z1
+  return .arr #[ofQ s.1, ofQ s.2.1, ofQ s.2.2]
+
+def s2pOp (j : Json) : R Json := do
+  let a ← qArr (← field j "s")
+  if a.size ≠ 3 then throw "expected [x, y, z]"
+  return ofPt (s2p a[0]! a[1]! a[2]!)
+
+def circleOp (j : Json) : R Json := do
+  let p1 ← r2Of (← field j "p1")
+  let p2 ← r2Of (← field j "p2")
+  let p3 ← r2Of (← field j "p3")
+  if (p2.1 - p1.1) * (p3.2 - p1.2) - (p3.1 - p1.1) * (p2.2 - p1.2) == 0 then throw "DivZero"
+  let c := circleThrough p1 p2 p3
+  return Json.mkObj [("centre", ofR2 c.1), ("radius2", ofQ c.2)]
+
+/-- `CP1Disk(centre, r)` (affine metric): the four points, `circle_parameters()`,
+`center_inside()`; `"pinned": true` runs the original in-place logic -/
+def diskOp (j : Json) : R Json := do
+  let c ← r2Of (← field j "c")
+  let r ← qf j "r"
+  let pinned := match fieldD j "pinned" (.bool false) with | .bool b => b | _ => false
+  let n := c.1 * c.1 + c.2 * c.2
+  if !(isSq n) then throw "irrational-root"
+  let d := if pinned then diskFromCentrePinned rsqrt c r else diskFromCentre rsqrt c r
+  if r == 0 then throw "DivZero"
+  let cp := circleParams d
+  return Json.mkObj [("pts", .arr #[ofR2 d.1, ofR2 d.2.1, ofR2 d.2.2.1, ofR2 d.2.2.2]),
+    ("centre", ofR2 cp.1), ("radius2", ofQ cp.2), ("inside", .bool (centreInside d))]
+
+def m2Of (j : Json) : R (M2 QI) := do
+  let a ← arr j
+  if a.size ≠ 2 then throw "expected 2x2"
+  let r0 ← arr a[0]!
+  let r1 ← arr a[1]!
+  if r0.size ≠ 2 || r1.size ≠ 2 then throw "expected 2x2"
+  return ⟨← cxOf r0[0]!, ← cxOf r0[1]!, ← cxOf r1[0]!, ← cxOf r1[1]!⟩
+
+def mobiusOp (j : Json) : R Json := do
+  let M ← m2Of (← field j "m")
+  let pts ← (← arr (← field j "pts")).mapM ptOf
+  return .arr (pts.map fun p => ofPt (act M p))
+
+def crossOp (j : Json) : R Json := do
+  let pts ← (← arr (← field j "pts")).mapM ptOf
+  if pts.size ≠ 4 then throw "expected four points"
+  if wedge pts[0]! pts[3]! * wedge pts[1]! pts[2]! == 0 then throw "DivZero"
+  return ofCx (crossRatio pts[0]! pts[1]! pts[2]! pts[3]!)
+
+/-- `complement()`: the new interior point (the root `ev` cancels: `inversion_indep_root`) -/
+def complementOp (j : Json) : R Json := do
+  let pts ← (← arr (← field j "pts")).mapM ptOf
+  if pts.size ≠ 4 then throw "expected four points"
+  if (M2.ofRows pts[0]! pts[1]!).det == 0 then throw "DivZero"
+  let d := complement (1 : QI) (pts[0]!, pts[1]!, pts[2]!, pts[3]!)
+  return ofPt d.2.2.2
+
+def interactionsOp (j : Json) : R Json := do
+  let t := interactions (← qf j "d") (← qf j "r1") (← qf j "r2")
+  return .arr #[.bool t.1, .bool t.2.1, .bool t.2.2]
+
+def boolsOf (j : Json) (k : String) : R (List Bool) := do
+  return ((← (← arr (← field j k)).mapM bool)).toList
+
+def outBools (e : Except Err (List Bool)) : R Json :=
+  match e with
+  | .ok l => pure (.arr (l.map Json.bool).toArray)
+  | .error .valueError => throw "ValueError"
+
+/-- `contains` / `intersects` on arrays: the mask plumbing, given `center_inside()` of both
+sides and the three tables of `disk_interactions` (flattened row-major for `"pairwise"`) -/
+def relOp (which : String) (j : Json) : R Json := do
+  let s ← boolsOf j "s_aff"
+  let o ← boolsOf j "o_aff"
+  let c ← boolsOf j "contain"
+  let cd ← boolsOf j "contained"
+  let i ← boolsOf j "intersect"
+  let mode ← strf j "mode"
+  let pinned := match fieldD j "pinned" (.bool false) with | .bool b => b | _ => false
+  match which, mode with
+  | "contains", "elementwise" => outBools (containsElem s o c cd i)
+  | "contains", "pairwise" => outBools (.ok (containsPair s o c cd i))
+  | "intersects", "elementwise" =>
+    outBools (if pinned then intersectsElemPinned s o c cd i else intersectsElem s o c cd i)
+  | "intersects", "pairwise" => outBools (.ok (intersectsPair s o c cd i))
+  | _, _ => throw "unknown mode"
+
+def ops : List (String × Handler) :=
+  [("c20.p2s", p2sOp), ("c20.s2p", s2pOp), ("c20.circle", circleOp), ("c20.disk", diskOp),
+   ("c20.mobius", mobiusOp), ("c20.cross_ratio", crossOp), ("c20.complement", complementOp),
+   ("c20.interactions", interactionsOp), ("c20.contains", relOp "contains"),
+   ("c20.intersects", relOp "intersects")]
 end GT.Driver.C20
